@@ -602,6 +602,23 @@ func c17(x *mon.Ctx) {
 			}
 		}
 	}
+	// somebody else (another process, an administrator, the TSM library's own GetDigest) binds an entry to a register AFTER the
+	// library has served requests on this client — for a register it has not touched yet, or has only looked for: the entry that
+	// exists is the one that is used (a second entry for a register cannot be bound: EBUSY)
+	for i := 0; i < 4; i++ {
+		for j := 0; j < 4; j++ {
+			if i == j {
+				continue
+			}
+			d := func(idx int, k byte) rtmrReq { return rtmrReq{Kind: "digest", Index: idx, Digest: dg(48, k)} }
+			ext := func(s string) rtmrReq { return rtmrReq{Kind: "external", Ext: s} }
+			hs = append(hs,
+				&rtmrHistory{Reqs: []rtmrReq{d(i, 1), ext(fmt.Sprintf("create:late=%d", j)), d(j, 2), d(j, 3), d(i, 4)}},
+				&rtmrHistory{Reqs: []rtmrReq{d(i, 1), d(i, 2), ext(fmt.Sprintf("create:zz-measure-7=%d\n", j)), {Kind: "log", Index: j, Hash: uint(crypto.SHA384), Log: dg(64, 5)}, d(j, 6)}},
+				&rtmrHistory{Pre: []string{fmt.Sprintf("mine=%d", i)}, Reqs: []rtmrReq{d(i, 1), {Kind: "digest", Index: j, Digest: dg(47, 1)}, ext(fmt.Sprintf("create:rtmr%d-late=%d", j, j)), d(j, 2), d(j, 3)}},
+			)
+		}
+	}
 	// all sequences of length <= 3 over a reduced alphabet
 	var alpha []rtmrReq
 	for _, i := range []int{-1, 0, 1, 3, 4} {
